@@ -50,6 +50,9 @@ pub struct Sel {
     /// Insert one malformed ID at this position of the final list (clamped to its length).
     #[serde(default, skip_serializing_if = "Option::is_none")]
     pub bad_at: Option<u32>,
+    /// The picked IDs are listed this many extra times (a request that names an ack ID twice).
+    #[serde(default, skip_serializing_if = "is_zero")]
+    pub repeat: u32,
 }
 
 fn is_zero(v: &u32) -> bool {
@@ -58,7 +61,7 @@ fn is_zero(v: &u32) -> bool {
 
 impl Sel {
     pub fn none() -> Self {
-        Sel { mine: false, pick: Pick::None, extra: vec![], filler: 0, bad_at: None }
+        Sel { mine: false, pick: Pick::None, extra: vec![], filler: 0, bad_at: None, repeat: 0 }
     }
     pub fn is_none(&self) -> bool {
         self.pick == Pick::None && self.extra.is_empty()
